@@ -293,7 +293,7 @@ def case_pop(B, cfg):
                 B.fact('%s: one truncated-normal draw' % label,
                        len(names) == 1 and names[0].startswith('tz['),
                        repr(names))
-                if len(names) != 1:
+                if len(names) != 1 or not names[0].startswith('tz['):
                     ok = False
                     continue
                 z = Sym.var(names[0])
